@@ -86,6 +86,7 @@ def run(ctx):
         return res
 
     check_sup(repo, res, sc_methods)
+    check_close_method(repo, res, sc_methods)
     check_frozenset(repo, res, sc_methods, simplex_helpers, face_helpers)
     check_faces(repo, res, sc_methods)
     check_bypass(repo, eng, res, direct, indirect, sc_methods)
@@ -459,6 +460,89 @@ def check_bound_producers(res, f):
 
 
 # ----------------------------------------------------------------------------------------------
+def check_close_method(repo, res, sc_methods):
+    """S-CLOSE for close(): every simplex of the complex has all its faces handed to a (guarded) bulk insertion."""
+    f = sc_methods.get("close")
+    if f is None:
+        raise AnalysisError("SimplicialComplex.close not found (anchor vanished)")
+    selfn = f.params[0]
+
+    def whole_view(e, depth=0):
+        """e enumerates every simplex: self.edges.members() / self._edge.values() (through list/map/local names)."""
+        if depth > 4:
+            return False
+        if isinstance(e, ast.Call):
+            nm = getattr(e.func, "attr", getattr(e.func, "id", None))
+            if nm == "members" and isinstance(e.func, ast.Attribute) and not e.args and isinstance(e.func.value, ast.Attribute) and e.func.value.attr == "edges":
+                return True
+            if nm == "values" and isinstance(e.func, ast.Attribute) and is_self_table(e.func.value, selfn, "_edge"):
+                return True
+            if nm in ("list", "tuple", "set", "sorted") and e.args:
+                return whole_view(e.args[0], depth + 1)
+            if nm == "map" and len(e.args) == 2:
+                return whole_view(e.args[1], depth + 1)
+        if isinstance(e, (ast.ListComp, ast.GeneratorExp, ast.SetComp)) and len(e.generators) == 1 and not e.generators[0].ifs:
+            return whole_view(e.generators[0].iter, depth + 1)
+        if isinstance(e, ast.Name):
+            defs = [st.value for st in own_statements(f.node) if isinstance(st, ast.Assign) and any(isinstance(t, ast.Name) and t.id == e.id for t in st.targets)]
+            return len(defs) == 1 and whole_view(defs[0], depth + 1)
+        return False
+
+    ok, why = False, "no loop over all simplices found"
+    for lp in own_statements(f.node):
+        if not (isinstance(lp, ast.For) and isinstance(lp.target, ast.Name) and whole_view(lp.iter)):
+            continue
+        var = lp.target.id
+        # names denoting (a slice of) the loop simplex
+        same = {var}
+        for st in own_statements(lp):
+            if isinstance(st, ast.Assign) and len(st.targets) == 1 and isinstance(st.targets[0], ast.Name):
+                v = st.value
+                if (isinstance(v, ast.Subscript) and isinstance(v.value, ast.Name) and v.value.id in same) or base_name(v) in same:
+                    same.add(st.targets[0].id)
+        faces = set()
+        for st in own_statements(lp):
+            if isinstance(st, ast.Assign) and isinstance(st.value, ast.Call) and getattr(st.value.func, "attr", getattr(st.value.func, "id", None)) in ("_subfaces", "powerset") and st.value.args and base_name(st.value.args[0]) in same:
+                faces |= {t.id for t in st.targets if isinstance(t, ast.Name)}
+        sinks = []
+        for st in own_statements(lp):
+            for c in _calls(st):
+                nm = getattr(c.func, "attr", None)
+                if nm in ("add_simplices_from",) or nm in FACE_CONSUMERS:
+                    a = c.args[0] if c.args else None
+                    direct = isinstance(a, ast.Call) and getattr(a.func, "attr", getattr(a.func, "id", None)) in ("_subfaces", "powerset") and a.args and base_name(a.args[0]) in same
+                    if direct or (isinstance(a, ast.Name) and a.id in faces):
+                        sinks.append(st)
+        if not sinks:
+            why = f"the loop over the simplices never hands `_subfaces({var})` to add_simplices_from"
+            continue
+        # the sink is conditional on nothing but the simplex being non-empty
+        par = {}
+        for p in ast.walk(lp):
+            for ch in ast.iter_child_nodes(p):
+                par[ch] = p
+        good = False
+        for sk in sinks:
+            p, fine = sk, True
+            while p in par and par[p] is not lp:
+                p = par[p]
+                if isinstance(p, ast.If):
+                    t = p.test
+                    in_body = any(sk is x for b in p.body for x in ast.walk(b))
+                    if not (in_body and isinstance(t, ast.Name) and t.id in same):
+                        fine = False
+                if isinstance(p, (ast.For, ast.While, ast.Try)):
+                    fine = False
+            good = good or fine
+        ok = good
+        if not ok:
+            why = "the insertion of the faces is conditional on something other than the simplex being non-empty"
+        break
+    res.inst("S-CLOSE", "SimplicialComplex.close hands the faces of every simplex to the guarded bulk insertion", ok)
+    if not ok:
+        res.add(mk_finding(PROP, "S-CLOSE", f, f.node, f"SimplicialComplex.close: {why}; after close() the complex can still lack faces", role="close()"))
+
+
 def check_sup(repo, res, sc_methods):
     f = sc_methods.get("remove_simplex_id")
     if f is None:
